@@ -18,6 +18,7 @@ import Driver.CacheLog
 import Driver.Sock
 import Driver.RwSpec
 import Driver.SemLog
+import Driver.IntrLog
 /-! `driver <model>`: one op per stdin line, one canonical result line per op on stdout. -/
 
 structure Model where
@@ -43,6 +44,7 @@ def dispatch (model : String) : Option Model :=
   | "ser" => some ⟨Driver.Ser.St, {}, Driver.Ser.step⟩
   | "file" => some ⟨Driver.File.St, {}, Driver.File.step⟩
   | "rpc" => some ⟨Driver.Rpc.D, {}, Driver.Rpc.step⟩
+  | "intrlog" => some ⟨Driver.IntrLog.D, {}, Driver.IntrLog.step⟩
   | "semlog" => some ⟨Driver.SemLog.D, {}, Driver.SemLog.step⟩
   | "rwspec" => some ⟨Driver.RwSpec.D, {}, Driver.RwSpec.step⟩
   | "sock" => some ⟨Driver.Sock.D, {}, Driver.Sock.step⟩
